@@ -6,7 +6,7 @@
    is_von_name = the local function of Person._parse_string;  jr_part, first_part, token_case,
    spec_is_von: Spec/Names.v. *)
 From Pybtex Require Import Base.Prelude Base.PyChar Base.PyStr Model.BibtexStr Model.Names Spec.Names
-  Proofs.NamesSplit Proofs.Names Proofs.NamesCase Proofs.NamesAtomic Proofs.NamesOk.
+  Proofs.NamesSplit Proofs.Names Proofs.NamesCase Proofs.NamesAtomic Proofs.NamesOk Proofs.NamesUnique.
 
 (* parsing never raises a foreign exception and never diverges, for EVERY string and every
    explicit part argument (the only error left is BibTeXError 'too many nested braces') *)
@@ -61,6 +61,21 @@ Theorem von_is_longest_run : forall s x p rep,
   p_first p = firstn 1 (p_first p ++ p_middle p).
 Proof. exact von_is_longest_run_pf. Qed.
 Print Assumptions von_is_longest_run.
+
+(* ... and that description determines the split: ANY cut  fm ++ von ++ lst  of the token list with
+   these properties is the one Person() computes -- the von part is THE longest run delimited by von
+   tokens that still leaves a last name *)
+Theorem von_split_unique : forall s x p rep ts fm von lst,
+  split_tex_comma (strip s) = Ok [x] -> person_of_string s = Ok (p, rep) -> split_tex_space (strip s) = Ok ts ->
+  ts = fm ++ von ++ lst ->
+  Forall (fun t => is_von_name t = Ok false) fm ->
+  (von = [] \/ ((exists y v', von = y :: v' /\ is_von_name y = Ok true) /\
+               (exists v' y, von = v' ++ [y] /\ is_von_name y = Ok true))) ->
+  Forall (fun t => is_von_name t = Ok false) (removelast lst) ->
+  (ts <> [] -> lst <> []) -> (von = [] -> length lst <= 1) ->
+  fm = p_first p ++ p_middle p /\ von = p_prelast p /\ lst = p_last p.
+Proof. exact von_split_unique_pf. Qed.
+Print Assumptions von_split_unique.
 
 (* von Last, First / von Last, Jr, First: the von part is the prefix of part 1 that ends with its
    last von token that is not the last token *)
